@@ -46,14 +46,42 @@ def main():
     _, drej, dlines = vlib.validate_trace("TraceExtras", "TraceExtras.cfg", dpath, shards=1, heap="1g")
     if len(drej) != len(dlines):
         raise vlib.Infra("binding demonstration: %d of %d corrupted observations were accepted" % (len(dlines) - len(drej), len(dlines)))
+    # spec/BinaryCursor.tla: TLC checks the cursor's design invariants and prints every behaviour
+    # of <= 4 calls over sources of <= 12 bytes; the real package replays them
+    rb = vlib.tlc("BinaryCursor", "BinaryCursor.cfg", heap="2g", workers=4)
+    if rb.violated:
+        raise vlib.Infra("BinaryCursor.tla: TLC reports a violation of the model's own invariants")
+    cpath = os.path.join(out, "binarycursor.ndjson")
+    with open(cpath, "w") as f:
+        for c in rb.printed:
+            f.write(json.dumps(c) + "\n")
+    pb = vlib.run([drive, "binarycursor", "-cases", cpath, "-seed", str(vlib.seed())], timeout=1800)
+    blines = [json.loads(l) for l in pb.stdout.strip().splitlines()]
+    bsum = blines[-1]
+    bmis = [l["mismatch"] for l in blines if "mismatch" in l]
+    if not bsum.get("summary") or bsum["cases"] != len(rb.printed) - 1 or bsum["calls"] == 0:
+        raise vlib.Infra("binarycursor replay did not run all cases: %r" % bsum)
+    # binding demonstration: a case whose expected value has two bytes swapped must be reported
+    demo_case = next(c for c in rb.printed if "calls" in c and c["calls"][0]["op"] == "u32b" and c["calls"][0]["err"] == "nil")
+    bad = json.loads(json.dumps(demo_case))
+    bad["calls"][0]["val"][0], bad["calls"][0]["val"][1] = bad["calls"][0]["val"][1], bad["calls"][0]["val"][0]
+    dp = os.path.join(out, "binarycursor_demo.ndjson")
+    open(dp, "w").write(json.dumps(bad) + "\n")
+    pd = vlib.run([drive, "binarycursor", "-cases", dp, "-seed", str(vlib.seed())], timeout=600)
+    if json.loads(pd.stdout.strip().splitlines()[-1])["mismatches"] == 0:
+        raise vlib.Infra("binarycursor binding demonstration: a swapped expectation was not reported")
     ev = {"what": "spec/Extras.tla judged %d observations of the real code" % len(lines), "events_by_kind": kinds,
+          "binary_cursor": {"tlc_distinct_states": rb.distinct, "behaviours_replayed": bsum["cases"], "calls_compared": bsum["calls"],
+                            "writes_compared": bsum["writes"], "mismatches": bsum["mismatches"], "binding_demo": "swapped expectation reported"},
           "rejected": len(rejects), "binding_demo_corrupted_rejected": len(drej), "wall_s": round(time.time() - t0, 1),
           "tlc": [{"distinct_states": r.distinct, "wall_s": round(r.wall, 1)} for r in results]}
     os.makedirs(os.path.join(vlib.VERIF, "extras"), exist_ok=True)
     json.dump(ev, open(os.path.join(vlib.VERIF, "extras", "evidence.json"), "w"), indent=1)
     for n, _ in rejects[:10]:
         print("EXTRA-REJECT %s" % lines[n][:400])
-    if rejects:
+    for m in bmis[:10]:
+        print("EXTRA-REJECT binarycursor %s" % json.dumps(m)[:400])
+    if rejects or bmis:
         return 1
     print("OK extras events=%d wall=%.1fs" % (len(lines), time.time() - t0))
     return 0
